@@ -944,6 +944,27 @@ class SourceFile:
         return dict(params=params, ret=ret, body=body, item=it, into_params=into_params)
 
 
+# ---- addition: file-level lint attributes.  `#![allow(..)]` / `#![warn(..)]` / `#![deny(..)]` / `#![forbid(..)]`
+# at the top of a file only set lint levels (Rust reference, "Lint check attributes": no effect on the meaning of
+# the items); they are skipped.  Any other inner attribute (`#![cfg(..)]`, `#![feature(..)]`, …) still fails loudly.
+_scan_base = SourceFile.scan
+
+
+def _scan_skipping_lint_levels(self, p, end, impl):
+    if impl is None and p == 0:
+        T = self.toks
+        while T[p].k == "p" and T[p].s == "#" and T[p + 1].k == "p" and T[p + 1].s == "!" and T[p + 2].k == "p" and T[p + 2].s == "[":
+            e = self.skip_balanced(p + 2)
+            txt = attr_text(T[p + 3:e - 1])
+            if not re.fullmatch(r"(allow|warn|deny|forbid)\([A-Za-z0-9_:,]*\)", txt):
+                raise U(T[p].line, f"inner attribute not understood: #![{txt}]")
+            p = e
+    return _scan_base(self, p, end, impl)
+
+
+SourceFile.scan = _scan_skipping_lint_levels
+
+
 # ======================================================================================= types
 # Translator types: 'u8' 'u16' 'u32' 'u64' 'u128' 'usize' (machine integers), 'Uint64' 'Uint128' 'Uint256'
 # 'Uint512' (cosmwasm wrappers), 'Decimal' (128-bit atomics, 18 places), 'Decimal256' (256-bit atomics),
@@ -1158,6 +1179,33 @@ STRUCTURAL = [
      "the variant's fields replace the parameter (under the field names of the enum definition); the arm's bindings are `let`s of those"),
 ]
 
+# ---- additions: Uint64 / Timestamp rows for the epoch and configuration validators --------------------------
+# (kept as a separate block so that the table above can grow independently; same row format)
+SEM += [
+    R("f", "Uint64::new", ("u64",), "Uint64", "{0}", "pure", "uint64.rs new: `Uint64(value)`"),
+    R("f", "Uint64::zero", (), "Uint64", "0", "pure", "uint64.rs zero: `Uint64(0)`"),
+    R("f", "Uint64::one", (), "Uint64", "1", "pure", "uint64.rs one: `Self(1)`"),
+    R("m", "checked_add", ("Uint64", "Uint64"), ("res", "Uint64"), "cadd U64MAX {0} {1}", "pure", "uint64.rs checked_add: u64::checked_add, Err(OverflowError) above 2^64-1"),
+    R("m", "checked_sub", ("Uint64", "Uint64"), ("res", "Uint64"), "csub {0} {1}", "pure", "uint64.rs checked_sub: u64::checked_sub, Err(OverflowError) below 0"),
+    R("m", "checked_mul", ("Uint64", "Uint64"), ("res", "Uint64"), "cmul U64MAX {0} {1}", "pure", "uint64.rs checked_mul: u64::checked_mul, Err(OverflowError)"),
+    R("m", "checked_div", ("Uint64", "Uint64"), ("res", "Uint64"), "cdiv {0} {1}", "pure", "uint64.rs checked_div: u64::checked_div, Err(DivideByZeroError) on /0, floor"),
+    R("m", "is_zero", ("Uint64",), "bool", "decide ({0} = 0)", "pure", "uint64.rs is_zero"),
+    R("m", "u64", ("Uint64",), "u64", "{0}", "pure", "uint64.rs u64(): the wrapped value"),
+    R("m", "nanos", ("Timestamp",), "u64", "{0}", "pure", "cosmwasm-std 1.5.4 src/timestamp.rs: `struct Timestamp(Uint64)` (nanoseconds since the Unix epoch); nanos() = self.0.u64()"),
+    R("m", "seconds", ("Timestamp",), "u64", "({0} / 1000000000)", "pure", "src/timestamp.rs seconds() = self.0.u64() / 1_000_000_000 (truncating u64 division by a non-zero literal)"),
+    R("f", "Timestamp::default", (), "Timestamp", "0", "pure", "src/timestamp.rs #[derive(Default)] on `Timestamp(Uint64)`; uint64.rs #[derive(Default)] on `Uint64(u64)`: 0 ns"),
+    R("bin", "==", ("Timestamp", "Timestamp"), "bool", "decide ({0} = {1})", "pure", "src/timestamp.rs #[derive(PartialEq, Eq)] on `Timestamp(Uint64)`: equality of the nanoseconds"),
+    R("bin", "!=", ("Timestamp", "Timestamp"), "bool", "decide ({0} ≠ {1})", "pure", "src/timestamp.rs #[derive(PartialEq, Eq)]"),
+]
+STRUCTURAL += [
+    ("Timestamp", "a `cosmwasm_std::Timestamp` value is the `Nat` of its nanoseconds (`struct Timestamp(Uint64)`); rows: `.nanos()`, `.seconds()`, `Timestamp::default()`, `==` / `!=`"),
+    ("e.ok_or(x) / e.ok_or_else(|| x) on the Option of a primitive `checked_*` operation",
+     "identity on the `Res` value (such an Option is a `Res` with None = `err` already); x must be an error constructor"),
+]
+# `Timestamp` as a parameter / field type: a number that is none of NUMERIC (no arithmetic, no comparison rows
+# apply to it beyond the rows above: anything else on it stays UNTRANSLATABLE)
+NAT_WRAPPERS = ("Timestamp",)
+
 LEAN_RESERVED = set("""at from end fun open in do then else if let have show by match with def Type Prop Sort where deriving
 instance namespace section variable universe theorem example import export calc mutual structure inductive class abbrev
 macro syntax notation infix infixl infixr prefix postfix private protected partial unsafe noncomputable nomatch nofun return for
@@ -1329,6 +1377,25 @@ def show_type(t):
     if isinstance(t, tuple):
         return t[0] + "<" + ",".join(show_type(x) if not isinstance(x, int) else str(x) for x in t[1:]) + ">"
     return str(t)
+
+
+# ---- additions: `Timestamp` (see NAT_WRAPPERS) in the type resolver, as wrappers around the functions above
+_resolve_type_base = resolve_type
+_lean_type_base = lean_type
+
+
+def resolve_type(ctx, t, names, self_ty, ret=False):   # noqa: F811 (deliberate wrapper; the recursive calls reach it)
+    if t["k"] == "tpath" and t["segs"][-1] in NAT_WRAPPERS:
+        if t["args"]:
+            raise U(t["line"], "generic arguments on a primitive type")
+        return t["segs"][-1]
+    return _resolve_type_base(ctx, t, names, self_ty, ret)
+
+
+def lean_type(ctx, t):   # noqa: F811
+    if t in NAT_WRAPPERS:
+        return "Nat"
+    return _lean_type_base(ctx, t)
 
 
 # ======================================================================================= translator
@@ -2679,6 +2746,88 @@ class Tr:
         return self.apply_row(row, [a for a, _ in vals], hint), self.res_type(row, types)
 
 
+# ---- addition: early `return <value>` (structural rule, see STRUCTURAL) -----------------------------------------
+# `{ s1; …; if c { t…; return v; } r1; …; tail }` in the position of the function's result, where `v` is not an
+# error (`return Err(..)` / `return None` keep their existing rule: `Res.err` inside the statement):
+#     s1; …; (if c then do t…; ⟦v⟧ else do r1; …; ⟦tail⟧)
+# i.e. the rest of the block is the `else` branch.  Only in mode 'fn' (the block's value IS the function's
+# result), only for an `if` without `else` whose last statement is the `return`.
+STRUCTURAL += [
+    ("if c { …; return v; } rest   (v not an error, block in result position)",
+     "`if c then do …; ⟦v⟧ else do ⟦rest⟧`: the statements after the `if` are evaluated only when c is false"),
+]
+
+
+def _is_error_return(r):
+    if r is None:
+        return False
+    if r["k"] == "call" and r["f"]["k"] == "path" and r["f"]["segs"] == ["Err"]:
+        return True
+    return r["k"] == "path" and r["segs"] == ["None"]
+
+
+def _early_value_return(st):
+    if st["k"] != "sexpr" or st["e"]["k"] != "if" or st["e"]["els"] is not None:
+        return False
+    then = st["e"]["then"]
+    if then["tail"] is not None or not then["stmts"]:
+        return False
+    last = then["stmts"][-1]
+    return last["k"] == "sexpr" and last["e"]["k"] == "return" and last["e"]["e"] is not None \
+        and not _is_error_return(last["e"]["e"])
+
+
+_block_term_base = Tr.block_term
+
+
+def _block_term_early_return(self, b, mode, env, expected):
+    if mode == "fn":
+        for i, st in enumerate(b["stmts"]):
+            if st["k"] == "sexpr" and st["e"]["k"] == "return":
+                break       # the existing rule decides (it rejects statements after a `return`)
+            if _early_value_return(st):
+                for st0 in b["stmts"][:i]:
+                    self.stmt(st0, env)
+                ife = st["e"]
+                c = self.cond(ife["cond"], env)
+                tl, tt = self.captured(ife["then"], "fn", env, expected)
+                rest = N("block", st["line"], stmts=b["stmts"][i + 1:], tail=b["tail"])
+                el, et = self.captured(rest, "fn", env, expected)
+                ty = self.join(tt, et, st["line"])
+                return wrap("(", [f"if {c} then do"] + indent(tl) + ["else do"] + indent(el), ")"), ty
+    return _block_term_base(self, b, mode, env, expected)
+
+
+Tr.block_term = _block_term_early_return
+
+
+# ---- addition: `.ok_or(..)` / `.ok_or_else(..)` on the Option of a primitive `checked_*` operation ---------------
+# (`u64::checked_sub(..)` … have SEM rows whose result is already a `Res` with None = `err`; turning that None into
+# an `Err(x)` changes nothing on the Lean side.  The receiver must syntactically be a `checked_*` method call and
+# must translate to a `Res`; x must be an error constructor.)
+_tr_mcall_base = Tr.tr_mcall
+
+
+def _tr_mcall_ok_or_on_checked(self, e, env, expected, hint):
+    if e["name"] in ("ok_or", "ok_or_else") and len(e["args"]) == 1 and e["turbofish"] is None:
+        r0 = e["recv"]
+        while r0["k"] == "paren":
+            r0 = r0["e"]
+        if r0["k"] == "mcall" and r0["name"].startswith("checked_"):
+            a, t = self.tr(r0, env, expected)
+            if not (isinstance(t, tuple) and t[0] == "res"):
+                raise U(e["line"], f"{e['name']} on {show_type(t)}")
+            if e["name"] == "ok_or_else":
+                self.closure_error(e["args"][0], env)
+            else:
+                self.error_value(e["args"][0], env)
+            return a, t
+    return _tr_mcall_base(self, e, env, expected, hint)
+
+
+Tr.tr_mcall = _tr_mcall_ok_or_on_checked
+
+
 # ======================================================================================= kernel and type tables
 FEE_RS = STD + "fee.rs"
 PAIR_RS = STD + "pool_network/pair.rs"
@@ -2786,6 +2935,34 @@ KERNELS = [
                 "StableSwapDirection": "StableSwapDirection"},
          specialize={"swap_type": "PairType::StableSwap"},
          props=["C03"], model="WW.ssSwap", theorem="WW.KernelsStable2Swap.gen_compute_swap_StableSwap_eq_model", module="WW.Props.Kernels.Stable2Swap"),
+]
+
+
+# ---- additions: epoch / configuration validators of the fee distributor and the whale lair ----------------------
+LH = "contracts/liquidity_hub/"
+DIST_HELPERS = LH + "fee_distributor/src/helpers.rs"
+LAIR_HELPERS = LH + "whale_lair/src/helpers.rs"
+LAIR_STATE = LH + "whale_lair/src/state.rs"
+EPOCH_MANAGER_RS = STD + "epoch_manager/epoch_manager.rs"
+TYPES["EpochConfig"] = dict(rust="EpochConfig", file=EPOCH_MANAGER_RS, lean="EpochConfig")
+KERNELS += [
+    dict(lean="validate_grace_period", file=DIST_HELPERS, fn="validate_grace_period",
+         props=["C18", "C09"], model="WW.Config.graceValid / the grace test of WW.Distributor.updateGrace",
+         theorem="WW.KernelsEpochCfg.gen_validate_grace_period_eq_model", module="WW.Props.Kernels.EpochCfg",
+         also=["WW.Props.Kernels.DistGrace"]),
+    dict(lean="validate_epoch_config", file=DIST_HELPERS, fn="validate_epoch_config", types={"EpochConfig": "EpochConfig"},
+         props=["C18", "C20"], model="WW.Config.durationValid / WW.Epoch.validEpochConfig",
+         theorem="WW.KernelsEpochCfg.gen_validate_epoch_config_eq_model", module="WW.Props.Kernels.EpochCfg",
+         also=["WW.Props.Kernels.EpochClock"]),
+    dict(lean="validate_growth_rate", file=LAIR_HELPERS, fn="validate_growth_rate",
+         props=["C18"], model="WW.Config.growthValid",
+         theorem="WW.KernelsEpochCfg.gen_validate_growth_rate_eq_model", module="WW.Props.Kernels.EpochCfg"),
+    dict(lean="lair_calculate_epoch", file=LAIR_HELPERS, fn="calculate_epoch", types={"EpochConfig": "EpochConfig"},
+         props=["C08", "C09"], model="WW.Lair.calcEpoch",
+         theorem="WW.KernelsLairEpoch.gen_lair_calculate_epoch_eq_model", module="WW.Props.Kernels.LairEpoch"),
+    dict(lean="lair_get_weight", file=LAIR_STATE, fn="get_weight",
+         props=["C08"], model="WW.Lair.getWeight",
+         theorem="WW.KernelsLairWeight.gen_lair_get_weight_eq_model", module="WW.Props.Kernels.LairWeight"),
 ]
 
 
